@@ -111,7 +111,8 @@ class Ctx:
         return z3.Real(n) if sort == "real" else (z3.Int(n) if sort == "int" else z3.Bool(n))
 
     # -- forking
-    def branch(self, cond):
+    def branch(self, cond, timeout_ms=None, unknown_true_is_infeasible=False):
+        feas_ms = timeout_ms or self.feas_timeout_ms
         cond = z3.simplify(cond, som=True)
         if z3.is_true(cond):
             return True
@@ -139,10 +140,10 @@ class Ctx:
                 pass
         m_t = m_f = None
         if can_t is None:
-            r = self.check(cond, timeout_ms=self.feas_timeout_ms)
+            r = self.check(cond, timeout_ms=feas_ms)
             if r == z3.unknown:
                 self.n_unknown_feas += 1
-            can_t = r != z3.unsat
+            can_t = r != z3.unsat and not (r == z3.unknown and unknown_true_is_infeasible)
             if r == z3.sat:
                 m_t = self.solver.model()
         else:
@@ -152,7 +153,7 @@ class Ctx:
                 can_f = True  # invariant: the current path is feasible
                 m_f = self.model
             else:
-                r = self.check(ncond, timeout_ms=self.feas_timeout_ms)
+                r = self.check(ncond, timeout_ms=feas_ms)
                 if r == z3.unknown:
                     self.n_unknown_feas += 1
                 can_f = r != z3.unsat
@@ -495,7 +496,8 @@ def _check_nonzero(den):
         if den.as_fraction() == 0:
             raise ZeroDivisionError("division by zero")
         return
-    if CTX.branch(den == 0):
+    # decided with the full timeout; an undecided query must not send the run down a spurious exception path
+    if CTX.branch(den == 0, timeout_ms=CTX.timeout_ms, unknown_true_is_infeasible=True):
         raise ZeroDivisionError("division by (symbolic) zero")
 
 
